@@ -20,21 +20,28 @@ Inits == { Val("vec", Seq3, 0, 0),
            Val("band", Mk(3, 3, LAMBDA i, j : IF j <= i + 1 /\ i <= j + 1 THEN 1 + 3 * i + j ELSE 0), 1, 1),
            Val("tri", Mk(3, 3, LAMBDA i, j : IF i - j \in {-1, 0, 1} THEN 1 + 3 * i + j ELSE 0), 0, 0) }
 
-\* mutations offered in a state (always in range for the CURRENT shape): one element write, one
-\* shape/structure change, one whole-object arithmetic update, one update borrowing the OTHER object
+\* mutations offered in a state (always in range for the CURRENT shape): element writes, SIZE-CHANGING operations
+\* (insert/resize/push/pop/trim/delete_row/transpose/resize_fill), whole-object updates, one update borrowing the OTHER object
 MutOps(v, other) ==
-  CASE v.k \in {"vec", "poly"} ->
-         {[Op("push") EXCEPT !.x = 7], [Op("scale") EXCEPT !.s = -1]}
-         \cup (IF v.m.r > 0 THEN {[Op("set") EXCEPT !.i = v.m.r - 1, !.x = 9], Op("pop")} ELSE {})
-         \cup (IF v.k = "vec" /\ SameShape(v.m, other.m) THEN {[Op("add_obj") EXCEPT !.src = 3]} ELSE {})
+  CASE v.k = "vec" ->
+         {[Op("insert") EXCEPT !.i = 0, !.x = 7], [Op("resize") EXCEPT !.nr = 2], [Op("scale") EXCEPT !.s = -1]}
+         \cup (IF v.m.r > 0 THEN {[Op("set") EXCEPT !.i = v.m.r - 1, !.x = 9]} ELSE {})
+         \cup (IF SameShape(v.m, other.m) THEN {[Op("add_obj") EXCEPT !.src = 3]} ELSE {})
+    [] v.k = "poly" ->
+         {[Op("push") EXCEPT !.x = 0], [Op("scale") EXCEPT !.s = -1]}
+         \cup (IF v.m.r > 0 THEN {[Op("set") EXCEPT !.i = v.m.r - 1, !.x = 9], Op("pop"), Op("trim")} ELSE {})
     [] v.k = "mat" ->
-         {[Op("set") EXCEPT !.i = 0, !.j = v.m.c - 1, !.x = 9], Op("transpose_in_place"), [Op("mul_assign") EXCEPT !.s = -1]}
+         {Op("transpose_in_place"), [Op("resize") EXCEPT !.nr = 3, !.nc = 2]}
+         \cup (IF v.m.r > 0 /\ v.m.c > 0 THEN {[Op("set") EXCEPT !.i = 0, !.j = v.m.c - 1, !.x = 9]} ELSE {})
+         \cup (IF v.m.r > 0 THEN {[Op("delete_row") EXCEPT !.i = 0]} ELSE {})
          \cup (IF SameShape(v.m, other.m) THEN {[Op("add_obj") EXCEPT !.src = 3]} ELSE {})
     [] v.k = "band" ->
-         {[Op("set") EXCEPT !.i = 1, !.j = 2, !.x = 9], [Op("fill_band") EXCEPT !.off = -1, !.x = 7],
-          [Op("scale") EXCEPT !.s = -1], [Op("add_obj") EXCEPT !.src = 3]}
+         {[Op("set") EXCEPT !.i = 0, !.j = (IF v.b >= 1 /\ v.m.r >= 2 THEN 1 ELSE 0), !.x = 9],
+          [Op("fill_band") EXCEPT !.off = (IF v.a >= 1 THEN -1 ELSE 0), !.x = 7],
+          [Op("resize_fill") EXCEPT !.nr = 2, !.i = 0, !.j = 1, !.x = 4]}
+         \cup (IF SameShape(v.m, other.m) /\ v.a = other.a /\ v.b = other.b THEN {[Op("add_obj") EXCEPT !.src = 3]} ELSE {})
     [] v.k = "tri" ->
-         {[Op("set") EXCEPT !.i = 1, !.j = 0, !.x = 9], Op("transpose_in_place"), [Op("shift") EXCEPT !.s = 2]}
+         {[Op("set") EXCEPT !.i = 1, !.j = 0, !.x = 9], Op("transpose_in_place"), [Op("shift") EXCEPT !.s = 2], [Op("resize") EXCEPT !.nr = 2]}
 
 Other(who) == 3 - who
 \* `src = 3` above is a placeholder for "the other object": resolved here
@@ -65,5 +72,7 @@ Independent == LET r == Replay(Put(Put(EmptyWs, 1, v0), 2, v0), hist)
 OnlyTarget == [][\A who \in {1, 2} : (Len(hist') = Len(hist) + 1 /\ hist'[Len(hist')].who = who)
                                         => w'[Other(who)] = w[Other(who)]]_vars
 Shape == WellShaped(w[1].m) /\ WellShaped(w[2].m)
+\* the generator never offers a negative index or size (such a case would be a defect of this module, not of ohsl)
+ArgsOK == \A k \in 1..Len(hist) : hist[k].o.i >= 0 /\ hist[k].o.j >= 0 /\ hist[k].o.nr >= 0 /\ hist[k].o.nc >= 0
 EmitCase == (Emit /\ Len(hist) = Depth) => PrintT(<<"CASE", ToJson([init |-> v0, steps |-> hist])>>)
 =============================================================================
